@@ -53,7 +53,12 @@ def shapes():
            'source_ref': 'identity--' + G.UUID, 'target_ref': 'identity--' + G.UUID2}
     fil = {'type': 'file', 'spec_version': '2.1', 'id': 'file--' + G.UUID, 'name': 'f', 'size': 0, 'hashes': {'MD5': 'b' * 32},
            'extensions': {'ntfs-ext': {'sid': 's', 'alternate_data_streams': [{'name': 'n', 'size': 0}]}}}
-    return {'malware21': base21, 'location21': loc, 'indicator21': ind, 'tool20': base20, 'indicator20': ind20, 'relationship21': rel, 'file21': fil}
+    # nested path steps of one and two characters (dictionary keys): language codes, observed-data member keys
+    lang = {'type': 'language-content', 'spec_version': '2.1', 'id': 'language-content--' + G.UUID, 'created': G.T1, 'modified': G.T1, 'object_ref': 'identity--' + G.UUID2,
+            'object_modified': G.T1, 'contents': {'de': {'name': 'n', 'description': ''}, 'fr': {'name': 'm'}}}
+    od20 = {'type': 'observed-data', 'id': 'observed-data--' + G.UUID, 'created': G.T1, 'modified': G.T1, 'first_observed': G.T1, 'last_observed': G.T1, 'number_observed': 1,
+            'objects': {'0': {'type': 'file', 'name': 'f', 'size': 0}, 'a1': {'type': 'domain-name', 'value': 'x.y'}}}
+    return {'malware21': base21, 'location21': loc, 'indicator21': ind, 'tool20': base20, 'indicator20': ind20, 'relationship21': rel, 'file21': fil, 'language-content21': lang, 'observed-data20': od20}
 
 
 def near_misses(d):
@@ -130,14 +135,23 @@ def run(chk):
             'is_marked(unmarked object)': lambda: MK.is_marked(stix2.parse(copy.deepcopy(d)), TLP, [sel]),
             'is_marked(unmarked dict)': lambda: MK.is_marked(copy.deepcopy(d), TLP, [sel]),
             'get_markings(marked object)': lambda: MK.get_markings(MK.add_markings(stix2.parse(copy.deepcopy(d)), TLP, ['type']), [sel]),
-            'method get_markings': lambda: stix2.parse(copy.deepcopy(d)).get_markings([sel]) if d['type'] != 'file' else None,
         }
+        if hasattr(stix2.parse(copy.deepcopy(d)), 'get_markings'): routes['method get_markings'] = lambda: stix2.parse(copy.deepcopy(d)).get_markings([sel])
+        if not want:
+            # a selector addressing nothing stays invalid wherever it stands in a list of selectors
+            good = 'type'
+            routes['parse, after a valid selector'] = lambda: stix2.parse(dict(copy.deepcopy(d), granular_markings=[{'marking_ref': TLP, 'selectors': [good, sel]}]))
+            routes['parse, before a valid selector'] = lambda: stix2.parse(dict(copy.deepcopy(d), granular_markings=[{'marking_ref': TLP, 'selectors': [sel, good]}]))
+            routes['add_markings(dict), after a valid selector'] = lambda: MK.add_markings(copy.deepcopy(d), TLP, [good, sel])
+            routes['is_marked(unmarked dict), after a valid selector'] = lambda: MK.is_marked(copy.deepcopy(d), TLP, [good, sel])
+            routes['get_markings(unmarked object), last of three'] = lambda: MK.get_markings(stix2.parse(copy.deepcopy(d)), [good, 'id', sel])
         if want:
             routes['remove after add'] = lambda: MK.remove_markings(MK.add_markings(stix2.parse(copy.deepcopy(d)), TLP, [sel]), TLP, [sel])
             routes['set_markings'] = lambda: MK.set_markings(MK.add_markings(stix2.parse(copy.deepcopy(d)), TLP, [sel]), 'marking-definition--34098fce-860f-48ae-8e50-ebd3cc5e41da', [sel])
         for rname, fn in routes.items():
-            if rname == 'parse' and not syntactically_ok: continue          # syntactically illegal selectors are refused by the property cleaner with another error
-            if d['type'] == 'file' and rname not in ('parse', 'get_markings(unmarked object)', 'is_marked(unmarked object)', 'is_marked(unmarked dict)'): continue   # SCOs are not versionable
+            if rname.startswith('parse') and not syntactically_ok: continue          # syntactically illegal selectors are refused by the property cleaner with another error
+            if d['type'] == 'file' and rname not in ('parse', 'get_markings(unmarked object)', 'is_marked(unmarked object)', 'is_marked(unmarked dict)', 'parse, after a valid selector', 'parse, before a valid selector',
+                                                     'is_marked(unmarked dict), after a valid selector', 'get_markings(unmarked object), last of three'): continue   # SCOs are not versionable
             got = accepted(fn)
             if isinstance(got, str) and got.startswith('escape:'):
                 return (f'decide#{rname}:{got[7:]}', f'{name}: deciding selector {sel!r} through {rname} failed with {got[7:]} instead of accepting or refusing it', {'selector': sel})
@@ -147,4 +161,4 @@ def run(chk):
             if not want and got is True:
                 return (f'accept#{rname}', f'{name}: selector {sel!r} addresses nothing but is accepted by {rname}', {'selector': sel})
     chk.bounded('selectors: every path and near misses x every entry point', list(cases()), check, classify=lambda c: (c[0], c[1]),
-                bound='7 object shapes (2.0 and 2.1; SDO, SRO, SCO with extension) x every path x near misses x 10 entry points')
+                bound='9 object shapes (2.0 and 2.1; SDO, SRO, SCO with extension, language content and observed-data with one- and two-character dictionary keys) x every path x near misses x 10 entry points; near misses also at every position of a selector list')
